@@ -1017,6 +1017,13 @@ def call_method(ev, recv, name, args, kwargs, fr, node):
             return StrV("")
         if name in ("close", "__enter__", "__exit__"):
             return NONE
+    if isinstance(recv, OpaqueV) and recv.what == "recbuf":
+        if name == "view" and args:
+            if isinstance(args[0], ClassV):
+                return ObjV(args[0].ci, {"_recbuf": recv, "imaginary": BoolV(False)}, tag="recview")
+            if isinstance(args[0], ExtV) and args[0].dotted == "numpy.ndarray":
+                return recv
+        ev.unsupported(f"method .{name} of a record array", node, fr)
     if isinstance(recv, NdArr):
         return nd_method(ev, recv, name, args, kwargs, fr, node)
     if isinstance(recv, StackV):
@@ -2103,6 +2110,12 @@ def h_rfftfreq(ev, args, kwargs, fr, node, backend=None):
 
 def h_zeros(ev, args, kwargs, fr, node, fill=0):
     shp = args[0]
+    dt0 = kwargs.get("dtype", args[1] if len(args) > 1 else None)
+    if isinstance(dt0, DictV) and "names" in dt0.d:
+        # structured (record) array: a buffer with named fields of one common shape
+        dims = tuple(s_.expr for s_ in shp.items) if isinstance(shp, (TupleV, ListV)) else (shp.expr,)
+        names = [n_.s for n_ in dt0.d["names"].items] if isinstance(dt0.d["names"], (ListV, TupleV)) else []
+        return OpaqueV("recbuf", {"shape": dims, "fields": {}, "names": names})
     if isinstance(shp, TupleV):
         dims = [s.expr for s in shp.items]
     else:
@@ -2156,6 +2169,47 @@ def h_unravel_index(ev, args, kwargs, fr, node):
     dims = [d_.expr for d_ in shp.items]
     term = F["Unravel"](idx.expr, sp.Symbol("order_" + o.s), *dims)
     return Num(term, kind="array", shape=idx.shape, tag="unravel")
+
+
+def h_np_shape(ev, args, kwargs, fr, node):
+    x = args[0]
+    if isinstance(x, NoneV):
+        return TupleV([])
+    if isinstance(x, (BoolV, StrV)):
+        return TupleV([])
+    if isinstance(x, Num):
+        if x.shape is None:
+            if x.kind in ("number", "quantity", "time") and x.tag != "data":
+                return TupleV([])
+            ev.unsupported("np.shape of an array of unknown shape", node, fr)
+        return TupleV([Num(s_) for s_ in x.shape])
+    if isinstance(x, NdArr):
+        return TupleV([Num(s_) for s_ in x.shape])
+    if isinstance(x, (ListV, TupleV)):
+        return TupleV([Num(len(x.items))])
+    ev.unsupported(f"np.shape({x!r})", node, fr)
+
+
+def h_broadcast_shapes(ev, args, kwargs, fr, node):
+    shapes = []
+    for a in args:
+        if not isinstance(a, (TupleV, ListV)):
+            ev.unsupported("np.broadcast_shapes of a non-tuple", node, fr)
+        shapes.append([i.expr for i in a.items])
+    nd = max([len(s_) for s_ in shapes] + [0])
+    out = []
+    for k in range(nd):
+        dims = [s_[len(s_) - nd + k] for s_ in shapes if len(s_) - nd + k >= 0]
+        cur = sp.Integer(1)
+        for d_ in dims:
+            if d_ == 1:
+                continue
+            if cur == 1:
+                cur = d_
+            elif cur != d_:
+                raise_value_error(ev, "shape mismatch: objects cannot be broadcast to a single shape", node, fr)
+        out.append(cur)
+    return TupleV([Num(d_) for d_ in out])
 
 
 def h_full(ev, args, kwargs, fr, node):
@@ -2439,8 +2493,22 @@ def h_reduce(ev, args, kwargs, fr, node):
 def h_unique(ev, args, kwargs, fr, node):
     x = args[0]
     if isinstance(x, NdArr) and all(isinstance(e, Num) and e.expr.is_number for e in x.items):
-        vals = sorted({e.expr for e in x.items})
-        return NdArr((len(vals),), [Num(v) for v in vals])
+        flat = [e.expr for e in x.items]
+        vals = sorted(set(flat))
+        res = [NdArr((len(vals),), [Num(v) for v in vals])]
+
+        def flag(name):
+            v = kwargs.get(name)
+            return isinstance(v, BoolV) and v.b
+        if flag("return_index"):
+            res.append(NdArr((len(vals),), [Num(flat.index(v)) for v in vals]))
+        if flag("return_inverse"):
+            res.append(NdArr((len(flat),), [Num(vals.index(v)) for v in flat]))
+        if flag("return_counts"):
+            res.append(NdArr((len(vals),), [Num(flat.count(v)) for v in vals]))
+        if kwargs.get("axis") is not None and not isinstance(kwargs.get("axis"), NoneV):
+            ev.unsupported("np.unique along an axis", node, fr)
+        return res[0] if len(res) == 1 else TupleV(res)
     ev.unsupported("np.unique of a symbolic array", node, fr)
 
 
@@ -2844,6 +2912,7 @@ EXT = {
     "dask.array.fft.fftfreq": lambda ev, a, k, fr, n: h_fftfreq(ev, a, k, fr, n, backend="dask"),
     "numpy.zeros": h_zeros, "numpy.ones": lambda ev, a, k, fr, n: h_zeros(ev, a, k, fr, n, fill=1),
     "numpy.full": lambda ev, a, k, fr, n: h_full(ev, a, k, fr, n),
+    "numpy.shape": lambda ev, a, k, fr, n: h_np_shape(ev, a, k, fr, n), "numpy.broadcast_shapes": lambda ev, a, k, fr, n: h_broadcast_shapes(ev, a, k, fr, n),
     "numpy.unravel_index": lambda ev, a, k, fr, n: h_unravel_index(ev, a, k, fr, n),
     "numpy.can_cast": lambda ev, a, k, fr, n: h_can_cast(ev, a, k, fr, n),
     "numpy.array": lambda ev, a, k, fr, n: h_array(ev, a, k, fr, n, strip=True), "numpy.asarray": lambda ev, a, k, fr, n: h_array(ev, a, k, fr, n, strip=True),
